@@ -233,3 +233,72 @@ Definition legacy_filed_protocol : protocol :=
   [(OpOpen, Some []); (OpWrite, None); (OpSync, None); (OpRename, None); (OpClose, None)].
 Definition legacy_generic_protocol : protocol :=
   [(OpOpen, Some []); (OpWrite, Some [OpClose]); (OpClose, None); (OpRename, Some [])].
+
+(* ---- recovery: what a restarted process LOADS after a crash ------------------------------------------
+   The directory after a crash: the offsets file ([dcur], None = no such name: the crash hit the very FIRST
+   save) and whatever is left under the temp name(s) ([dtmp]: absent, empty, a torn prefix, the complete new
+   snapshot, bytes of an older interrupted save, garbage after a power loss — unconstrained).
+   [old] : option bytes, None = no committed offsets file yet. *)
+Record dir := { dcur : option bytes; dtmp : option bytes }.
+
+(* the directories a crash in state [s] may leave: the name cur is still bound to what it was bound to
+   before the save, or (after the rename) to the new inode, which holds its durable content — or anything
+   if it was not synced; nothing is said about the temp name *)
+Definition crash_dir (old : option bytes) (s : fs) (d : dir) : Prop :=
+  dcur d = old \/ (cur_new s = true /\ exists c, dcur d = Some c /\ (c = dur s \/ vol s <> dur s)).
+
+(* the process is killed in state [s] (no power loss): exactly what the two names hold *)
+Definition kill_dir (old : option bytes) (s : fs) : dir :=
+  {| dcur := if cur_new s then Some (vol s) else old;
+     dtmp := if tmp_bound s then Some (vol s) else None |}.
+
+(* the loader of both savers (offsetDB.load, Offset.Load): it reads ONLY the committed file; a missing file
+   is the empty state.  [decode] = the parser / the callback's Load. *)
+Definition load_dir {A : Type} (decode : bytes -> A) (empty : A) (d : dir) : A :=
+  match dcur d with None => empty | Some b => decode b end.
+
+(* a loader that falls back to the temp file when the offsets file is missing (refuted in Proofs/FsCrash.v) *)
+Definition load_dir_fallback {A : Type} (decode : bytes -> A) (empty : A) (d : dir) : A :=
+  match dcur d with
+  | Some b => decode b
+  | None => match dtmp d with Some b => decode b | None => empty end
+  end.
+
+(* what recovery may yield: the state committed before the save (empty when there was none) or the new one *)
+Definition load_old {A : Type} (decode : bytes -> A) (empty : A) (old : option bytes) : A :=
+  match old with None => empty | Some b => decode b end.
+
+(* ---- crash points the harness can realise on the real code ---------------------------------------------
+   CBefore        before the first call
+   CWrite cut     the temp file is open and the write was interrupted after [cut] bytes (0 = nothing written)
+   CBeforeRename  every call before the rename was made (written, synced if the protocol syncs)
+   CDone          the save ran to its end *)
+Inductive crashpt := CBefore | CWrite (cut : nat) | CBeforeRename | CDone.
+
+Fixpoint before_op (op : fsop) (evs : list ev) : list ev :=
+  match evs with
+  | [] => []
+  | e :: r => if fsop_eqb (eop e) op then [] else e :: before_op op r
+  end.
+
+Definition crash_oracle (p : protocol) (new : bytes) (cp : crashpt) : oracle :=
+  match cp with
+  | CWrite cut => repeat None (length (before_op OpWrite (run_proto new p [] fs0))) ++ [Some cut]
+  | _ => []
+  end.
+
+(* the calls completed when the crash happens: a prefix of a run of the protocol *)
+Definition crash_evs (p : protocol) (new : bytes) (cp : crashpt) : list ev :=
+  let clean := run_proto new p [] fs0 in
+  match cp with
+  | CBefore => []
+  | CWrite _ => firstn (S (length (before_op OpWrite clean))) (run_proto new p (crash_oracle p new cp) fs0)
+  | CBeforeRename => before_op OpRename clean
+  | CDone => clean
+  end.
+
+Definition crash_state (p : protocol) (new : bytes) (cp : crashpt) : fs := fs_run new fs0 (crash_evs p new cp).
+
+(* the generic saver's protocol as a literal (subject of the fallback-loader refutation) *)
+Definition tmp_sync_rename_protocol : protocol :=
+  [(OpOpen, Some []); (OpWrite, Some [OpClose]); (OpSync, Some [OpClose]); (OpClose, None); (OpRename, Some [])].
